@@ -230,7 +230,7 @@ func (g *gen) pointEnv(b *ssa.BasicBlock, st *state, phiVal func(*ssa.Phi) strin
 	}
 	at := g.nameAt(b, st, phiVal)
 	e.lookup = func(name string) (sval, bool) {
-		if strings.HasSuffix(name, "0") && len(name) > 1 {
+		if _, isLet := e.lets[name]; !isLet && strings.HasSuffix(name, "0") && len(name) > 1 {
 			// entry value of a parameter: name0
 			if p, ok := g.params[name[:len(name)-1]]; ok {
 				if _, isFV := p.(*ssa.FreeVar); !isFV {
